@@ -109,6 +109,7 @@ def main():
         g1 = [2, 1, 1, 3, 3, 3, 1, 2, 2]
         g2 = [1, 1, 2, 2, 2, 3, 3, 3, 3]
         g3 = [5] * 9
+        empty = [[("g", "int", []), ("x", narrow or k, [])]]      # a frame left with no rows (e.g. after a filter that matched nothing)
         if narrow:
             # the same layouts in a narrower / differently-united dtype of the same family
             if narrow.startswith("datetime_") and narrow != "datetime_be":
@@ -118,8 +119,8 @@ def main():
                 pass
             elif narrow != "float32":
                 a = [abs(v) for v in a]; b = [abs(v) for v in b]
-            return [[("g", "int", g1), ("x", narrow, a)], [("g", "int", g2), ("x", narrow, b)], [("g", "int", g3), ("x", narrow, a)]]
-        return [[("g", "int", g1), ("x", k, a)], [("g", "int", g2), ("x", k, b)], [("g", "int", g3), ("x", k, a)], [("g", "int", ties_g), ("x", k, ties_v)], [("g", "int", big_g), ("x", k, big_v)]] + ([[("g", "int", off_g), ("x", k, off_v)]] if off_v else []) + ([[("g", "int", inf_g), ("x", k, inf_v)]] if inf_v else [])
+            return [[("g", "int", g1), ("x", narrow, a)], [("g", "int", g2), ("x", narrow, b)], [("g", "int", g3), ("x", narrow, a)]] + empty
+        return [[("g", "int", g1), ("x", k, a)], [("g", "int", g2), ("x", k, b)], [("g", "int", g3), ("x", k, a)], [("g", "int", ties_g), ("x", k, ties_v)], [("g", "int", big_g), ("x", k, big_v)]] + ([[("g", "int", off_g), ("x", k, off_v)]] if off_v else []) + ([[("g", "int", inf_g), ("x", k, inf_v)]] if inf_v else []) + empty
 
     helper_objects = {}
     def make(h, ha, hk):
